@@ -1052,6 +1052,11 @@ func (rn *runner) explore() {
 				if sc.plan.Decisions != nil || sc.kind == "stall" {
 					n = 1 + runs/6
 				}
+				if rn.job.Property == "C01" && sc.kind != "fault_free" {
+					// C01's budget stays with the fault-free interleavings; each failure and
+					// cancellation plan gets a sample of schedules
+					n = 2 + runs/40
+				}
 				for r := 0; r < n; r++ {
 					plan := sc.plan
 					bp := basePlan(mix(seed, uint64(si), uint64(r)), r)
